@@ -76,6 +76,16 @@ Theorem C11_tok_cancel_prompt :
     forall fuel pos, produced tok (tokenize_ctx tok len maxtok batch step done fuel pos []) < t + batch.
 Proof. exact tok_cancel_prompt. Qed.
 
+(* the parser's token cursor (Parser.advance under a context) polls every [interval] = 64 positions: once the
+   context is done (from cursor position t on) the cursor reads real tokens only below max(t, start) + interval,
+   then reads as end of input for good - whatever the statement looks like (expression-free bodies included) *)
+Theorem C11_cursor_cancel_prompt :
+  forall interval, 0 < interval -> forall done,
+    (forall a b, a <= b -> done a = true -> done b = true) ->
+    forall t, done t = true ->
+    forall n s, snd (advn interval done n s) = false -> fst (advn interval done n s) < Nat.max t (fst s) + interval.
+Proof. exact cursor_cancel_prompt. Qed.
+
 (* non-vacuity: a two-statement input whose first statement polls twice; done from poll 3 on *)
 Example ex_cancel :
   let ps := fun p => if p =? 0 then SOk 7 2 else SOk 8 5 in
@@ -83,6 +93,8 @@ Example ex_cancel :
   polls nat 6 (fun p => p =? 5) (fun p => p =? 2) ps (fun _ => 2) false 10 0 1 = 7 /\
   parse_c nat 6 (fun p => p =? 5) (fun p => p =? 2) ps (fun _ => 2) (fun _ => false) false 10 0 [] 1 = COk [7; 8].
 Proof. repeat split; vm_compute; reflexivity. Qed.
+Example ex_cursor : advn 64 (fun p => 100 <=? p) 127 (0, false) = (127, false) /\ advn 64 (fun p => 100 <=? p) 128 (0, false) = (128, true).
+Proof. split; vm_compute; reflexivity. Qed.
 Example ex_tok_polls : tok_polls 250 250 1000 = 3 /\ tok_polls 200 201 1000 = 3 /\ tok_polls 200 200 1000 = 2.
 Proof. repeat split; vm_compute; reflexivity. Qed.
 
@@ -94,3 +106,4 @@ Print Assumptions C11_never_fires_equal.
 Print Assumptions C11_tok_never_fires_equal.
 Print Assumptions C11_tok_cancel_reported.
 Print Assumptions C11_tok_cancel_prompt.
+Print Assumptions C11_cursor_cancel_prompt.
